@@ -6,7 +6,7 @@ A list of distinct node ids and the ten operations on it. `fresh` is the identit
 creating operation hands out.
 -/
 namespace Juniper.Spec.XList
-open Juniper.Model.XList (Op)
+open Juniper.Model.XList
 
 /-- insert `n` just before the handle `m` -/
 def insBefore : List Nat → Nat → Nat → List Nat
@@ -47,5 +47,65 @@ def nextIn : List Nat → Nat → Option Nat
 def prevIn : List Nat → Nat → Option Nat
   | a :: b :: t, x => if x = b then some a else prevIn (b :: t) x
   | _, _ => none
+
+/-! ## The representation relation, clause by clause as in the property text -/
+
+/-- Following `step` from `s` visits exactly the nodes of `l`, in order, and then reaches nil. -/
+def Visits (step : Nat → Option Nat) : Option Nat → List Nat → Prop
+  | s, [] => s = none
+  | s, x :: xs => s = some x ∧ Visits step (step x) xs
+
+/-- The heap `h` (the real list: what `Front`, `Back`, `Len`, `Next`, `Prev`, `Value` return)
+represents the ideal sequence of handles `l`. -/
+structure Rep (l : List Nat) (h : Heap) : Prop where
+  /-- handles are distinct -/
+  nodup : l.Nodup
+  /-- walking from `Front()` via `Next()` visits exactly `l` -/
+  forward : Visits (nextOf h) (frontOf h) l
+  /-- walking from `Back()` via `Prev()` visits exactly `l` reversed -/
+  backward : Visits (prevOf h) (backOf h) l.reverse
+  /-- the first node has no `Prev()` -/
+  firstNoPrev : ∀ x, l.head? = some x → prevOf h x = none
+  /-- the last node has no `Next()` -/
+  lastNoNext : ∀ x, l.getLast? = some x → nextOf h x = none
+  /-- `Len()` is the length -/
+  len : lenOf h = l.length
+  /-- every handle in the list is an allocated node -/
+  live : ∀ x ∈ l, (valueOf h x).isSome
+  /-- identities are creation indices: handles in the list are older than the next allocation … -/
+  bound : ∀ x ∈ l, x < h.nextId
+  /-- … and nothing is allocated at or beyond it (a new node is a new object) -/
+  fresh : ∀ x, h.nextId ≤ x → valueOf h x = none
+
+def Op.creates : Op → Bool
+  | .pushFront _ | .pushBack _ | .insertBefore _ _ | .insertAfter _ _ => true
+  | _ => false
+
+/-- the identity the next creating operation will hand out, after `o` -/
+def nextFresh (fresh : Nat) (o : Op) : Nat := if Op.creates o then fresh + 1 else fresh
+
+/-- Run a history on the ideal sequence. -/
+def runSpec (l : List Nat) (fresh : Nat) : List Op → List Nat
+  | [] => l
+  | o :: os => runSpec (step l fresh o) (nextFresh fresh o) os
+
+/-- Every operation of the history uses handles of nodes that are in the list at that moment. -/
+def HistWF (l : List Nat) (fresh : Nat) : List Op → Prop
+  | [] => True
+  | o :: os => Op.wellFormed l o ∧ HistWF (step l fresh o) (nextFresh fresh o) os
+
+/-- Run a history on the model, remembering whether any operation panicked. -/
+def runP (h : Heap) : List Op → Heap × Bool
+  | [] => (h, false)
+  | o :: os =>
+    let r := apply h o
+    let t := runP r.h os
+    (t.1, r.panicked || t.2)
+
+/-- The handles given to `Remove` in a history. -/
+def removedIn : List Op → List Nat
+  | [] => []
+  | .remove n :: os => n :: removedIn os
+  | _ :: os => removedIn os
 
 end Juniper.Spec.XList
